@@ -41,6 +41,8 @@ func (o c07Op) String() string {
 	return fmt.Sprintf("%s(%s)", o.Kind, o.ID)
 }
 
+var c07EagerKinds = []string{"fast", "err", "nope", "rpc", "slow-open", "slow-cancel", "batch"}
+
 var c07Methods = []string{"slow", "fast", "err", "nope", "rpc"}
 
 func otherID(id string) string {
@@ -209,8 +211,8 @@ func c07Check(x *vs.Exec) []Viol {
 	// held back until a slow batch-mate finishes: whether such an id counts as in flight is not
 	// specified (the call's reply has not been sent yet), so either answer is accepted for them
 	limbo := map[string]string{} // id -> id of the slow mate it waits for
-	inBatch := map[string]bool{}  // id of a running slow call that is a member of a two-member batch
-	globalCancel := false         // Stop or base context end: every later observation may be cancelled
+	inBatch := map[string]bool{} // id of a running slow call that is a member of a two-member batch
+	globalCancel := false        // Stop or base context end: every later observation may be cancelled
 	stopped := false
 	// split the log into windows [op k, quiet k]
 	type window struct {
@@ -521,6 +523,96 @@ func firstCode(ms []RMsg) (int, bool) {
 	return ms[0].ErrCode()
 }
 
+// c07Eager: a peer that re-uses an id the instant it has received the reply carrying it (no
+// quiescent point in between): the reply has been sent, so the id must be accepted again.
+// kind: fast, err, nope, rpc (the first call), slow-open (parked handler released by the
+// controller), slow-cancel (CancelRequest, then released), batch (two calls, ids re-used crosswise).
+func c07Eager(kind string, b Bounds) *Scenario {
+	return &Scenario{
+		Name:   "eager id re-use after reply: first=" + kind,
+		Params: map[string]any{"first": kind, "reuse": "sent by the peer as soon as it has received the reply, while the server may still be finishing the delivery"},
+		Bounds: b,
+		New: func() *Instance {
+			h := &c07H{gates: NewGates(), running: map[string]string{}}
+			body := func() {
+				lib, peer, _ := NewPipe(PipeOpts{Name: "srv", CloseUnblocksRecv: true})
+				srv := jrpc2.NewServer(c07Assigner{h.handler()}, &jrpc2.ServerOptions{Concurrency: 4})
+				srv.Start(lib)
+				bad := func(msg string) { vs.Yield("report"); vs.Note("eager-viol", msg) }
+				vs.GoNamed("peer", func() {
+					defer peer.Close()
+					switch kind {
+					case "batch":
+						peer.Send([]byte(`[{"jsonrpc":"2.0","id":1,"method":"fast0a"},{"jsonrpc":"2.0","id":2,"method":"fast0b"}]`))
+					case "slow-open", "slow-cancel":
+						peer.Send([]byte(`{"jsonrpc":"2.0","id":1,"method":"slow0"}`))
+						vs.Await(func() bool { return h.running["1"] != "" }, "handler parked")
+						if kind == "slow-cancel" {
+							srv.CancelRequest("1")
+						}
+						delete(h.running, "1")
+						h.gates.Open("slow0")
+					case "rpc":
+						peer.Send([]byte(`{"jsonrpc":"2.0","id":1,"method":"rpc.x0"}`))
+					default:
+						peer.Send([]byte(fmt.Sprintf(`{"jsonrpc":"2.0","id":1,"method":"%s0"}`, kind)))
+					}
+					r1, ok := peer.Recv()
+					if !ok {
+						bad("no reply to the first message")
+						return
+					}
+					// the reply is in the peer's hands: re-use its id(s) at once
+					if kind == "batch" {
+						peer.Send([]byte(`[{"jsonrpc":"2.0","id":2,"method":"fast1a"},{"jsonrpc":"2.0","id":1,"method":"fast1b"}]`))
+					} else {
+						peer.Send([]byte(`{"jsonrpc":"2.0","id":1,"method":"fast1"}`))
+					}
+					r2, ok := peer.Recv()
+					if !ok {
+						bad("no reply to the message re-using the id; first reply " + string(r1))
+						return
+					}
+					ms, _, _ := parseRecord(r2)
+					for _, m := range ms {
+						if m.Has("error") {
+							bad(fmt.Sprintf("id %s re-used after its reply %s had been received, but the new call was refused: %s", m.ID(), r1, m.Raw))
+						}
+					}
+					vs.AwaitQuiescence()
+					if keys, ok := privKeys(srv, "used"); ok && len(keys) > 0 {
+						bad("ids still reserved after every call has been answered: " + strings.Join(keys, ","))
+					}
+				})
+				srv.WaitStatus()
+			}
+			return &Instance{Body: body, Check: func(x *vs.Exec) []Viol {
+				v := genericRules(x, nil)
+				Hit("C07.R6")
+				n := 0
+				for _, e := range x.Log {
+					switch e.K {
+					case "eager-viol":
+						v = append(v, Viol{"C07.R6", e.Arg(0)})
+					case "h_enter":
+						n++
+					}
+				}
+				want := 2
+				if kind == "nope" || kind == "rpc" {
+					want = 1
+				} else if kind == "batch" {
+					want = 4
+				}
+				if x.Outcome == "ok" && len(v) == 0 && n != want {
+					v = append(v, Viol{"C07.R6", fmt.Sprintf("%d handler invocations, expected %d", n, want)})
+				}
+				return v
+			}}
+		},
+	}
+}
+
 func c07Scenarios(tier string) []*Scenario {
 	var out []*Scenario
 	var firsts []c07Op
@@ -537,7 +629,13 @@ func c07Scenarios(tier string) []*Scenario {
 		}
 		out = append(out, c07History(c07Op{"call", "1", "slow"}, 4, false, Bounds{0, 0, 0}))
 		out = append(out, c07History(c07Op{"call", "1", "slow"}, 3, true, Bounds{0, 0, 0}))
+		for _, k := range c07EagerKinds {
+			out = append(out, c07Eager(k, Bounds{2, -1, 0}))
+		}
 		return out
+	}
+	for _, k := range c07EagerKinds {
+		out = append(out, c07Eager(k, Bounds{3, -1, 1}))
 	}
 	for _, f := range firsts {
 		out = append(out, c07History(f, 3, false, Bounds{2, -1, 0}))
